@@ -593,6 +593,14 @@ class Gen:
         effectful_named = False
         for i, (n, dflt) in enumerate(ps):
             ty = ptypes.get(n, "num")
+            if ty == "smallnum":
+                # recursion depth argument: kept small
+                e = ("bin", "mod", self.expr(sc, "num", d - 1, pure), ("num", Fraction(6)))
+                if i < npos:
+                    pos.append(e)
+                else:
+                    named.append((n, e))
+                continue
             if i < npos:
                 pos.append(self.expr(sc, ty, d - 1, pure))
             else:
@@ -950,6 +958,17 @@ def gen_program(rng, cfg):
         s = g.callable_stmt(root, min(cfg.depth, 3), ctx, kind)
         if s:
             body.extend(s)
+    if rng.random() < 0.12:
+        # recursion: a function and a mixin that call themselves with a decreasing counter
+        g.features.add("recursion")
+        N, ONE, ZERO = ("var", "n"), ("num", Fraction(1)), ("num", Fraction(0))
+        body.append(("func", "rf", ((("n", None),), None), (
+            ("ifs", ((("bin", "le", N, ZERO), (("ret", ZERO),)),), None),
+            ("ret", ("bin", "add", N, ("call", "rf", (("bin", "sub", N, ONE),), (), None))))))
+        root.fns["rf"] = (((("n", None),), None), "num", False, {"n": "smallnum"})
+        body.append(("mixin", "rm", ((("n", None),), None), (
+            ("ifs", ((("bin", "gt", N, ZERO), (("decl", "p", N), ("incl", "rm", ((("bin", "sub", N, ONE),), (), None), None))),), None),)))
+        root.mixins["rm"] = (((("n", None),), None), True, False, 0, {"n": "smallnum"})
     n = rng.randint(3, 9)
     for _ in range(n):
         if not g.budget():
